@@ -210,6 +210,34 @@ def resolve (w : World) (srcDir : Str) (dot : Bool) (raw : Str) : Except Err Str
   | .error e => .error e
   | .ok (fromRoot, importPath) => importLocalFile w fromRoot importPath srcDir
 
+/-! ### the same pipeline, factored: which components does an import append to its base directory?
+(`Lemmas.resolve_dot_eq` / `resolve_root_eq` prove that `resolve` is exactly this.) -/
+
+/-- `fileValue`'s default extension, on the last component -/
+def extAdj (ns : List Str) : List Str :=
+  match ns.reverse with
+  | [] => []
+  | l :: up => if '.' ∈ l then ns else ((l ++ arraiExt) :: up).reverse
+
+/-- the components `//{.raw}` appends to the source directory -/
+def dotRel (raw : Str) : Except Err (List Str) :=
+  let name := trim ws raw
+  if !hasPrefix name slash then .error .external
+  else
+    let cs := norm false (splitSlash ('.' :: name))
+    if hasPrefix (render false cs) dd then .error .outside
+    else if cs = [] then .error .noFile
+    else .ok (extAdj cs)
+
+/-- the components `//{raw}` appends to the module root -/
+def rootRel (raw : Str) : Except Err (List Str) :=
+  let name := trim ws raw
+  if !hasPrefix name slash then .error .external
+  else
+    let cs := norm true (splitSlash name)
+    if cs = [] then .error .noFile
+    else .ok (extAdj (splitSlash (replaceAll (joinSlash cs) ['.', '.', '/'] [])))
+
 /-- `Compile(ctx, filePath, source)`: the `SourceDir` of a script -/
 def sourceDir (filePath : Str) : Str := if filePath = [] then dot1 else dir filePath
 
@@ -294,7 +322,7 @@ def Graph.lookup (g : Graph κ) (k : κ) : Option (List (Option κ)) := (g.files
 abbrev Cache (κ : Type) := List (κ × Option (Tree κ))
 
 def Cache.get (c : Cache κ) (k : κ) : Option (Option (Tree κ)) := c.lookup k
-def Cache.del (c : Cache κ) (k : κ) : Cache κ := c.filter (fun p => p.1 ≠ k)
+def Cache.del (c : Cache κ) (k : κ) : Cache κ := c.filter (fun p => !decide (p.1 = k))
 def Cache.set (c : Cache κ) (k : κ) (v : Option (Tree κ)) : Cache κ := (k, v) :: Cache.del c k
 
 abbrev Res (κ : Type) (α : Type) := Except Fail α × Cache κ
